@@ -731,7 +731,6 @@ func isActionsTyped(v ssa.Value) bool {
 	return strings.HasSuffix(t.String(), "action.Actions")
 }
 
-
 // c07EncoderGuards: what the fold produced is what the proxy gets: the
 // response encoders set status, body and headers unconditionally (an empty body
 // is a body), each optional request variable is guarded by its OWN field being
